@@ -96,11 +96,16 @@ Definition entry_term (e : entry) : term :=
 Definition audit_terms (fx : list effect) : list term :=
   flat_map (fun e => match e with EAudit x => [entry_term x] | _ => [] end) fx.
 
-(* a history: calls (each with the nonce of its save, if any) and REOPENS - the handle is
+(* a history: calls (each with its environment - whether the file system accepts the save,
+   what the audit sink does - and the nonce of its save, if any) and REOPENS - the handle is
    dropped and the file on disk is opened again with the same key *)
 Inductive hstep :=
 | HCall (ev : env) (cl : caller) (o : op N) (r : N)
 | HReopen.
+
+(* the call attempted a save that the file system refused (ev.save_ok = false) *)
+Definition save_failed (fx : list effect) : bool :=
+  existsb (fun e => match e with ESaveFail => true | _ => false end) fx.
 
 Definition count_reopens (h : list hstep) : N :=
   N.of_nat (length (filter (fun x => match x with HReopen => true | _ => false end) h)).
@@ -115,7 +120,9 @@ Fixpoint run_terms (kek : N) (c : cstate) (s : dbstate N) (f : term) (h : list h
       let '(f', u) := c_save c r (doc_term (kv s')) in
       let saved := has_save fx in
       let '(files, audits, uses) := run_terms kek c s' (if saved then f' else f) h' in
-      ((if saved then [f'; f'] else []) ++ files,     (* the temporary and, after the rename, the live file *)
+      ((if saved then [f'; f']                        (* the temporary and, after the rename, the live file *)
+        else if save_failed fx then [f']              (* a REFUSED save: the temporary may have been written; the file on disk stays *)
+        else []) ++ files,
        audit_terms fx ++ audits,
        (if saved then u else 0) + uses)
   | HReopen :: h' =>
